@@ -360,6 +360,52 @@ def depth_limit(R, B):
         R.check(st == 'ok' and v.get_depth(0) == 1023, 'depth-1023-refused', f'cell of depth 1023 refused or wrong depth: {v!r}')
 
 
+def ref_limit_routes(R, B, rng):
+    """no route hands out a cell with more than four references: the constructors themselves, a slice turned into a cell, a builder whose reference
+    list was extended in place, a bag of cells whose descriptor byte announces 5..7 references.  Four references pass through every route."""
+    from bitarray import bitarray
+    Cell, Slice, Builder = B.Cell, B.Slice, B.Builder
+    from pytoniq_core.boc.tvm_bitarray import TvmBitarray
+
+    def bag(n):          # root with n references to n distinct one-byte leaves, generic magic, 1-byte sizes
+        cells = [bytes([n, 0]) + bytes(range(1, n + 1))] + [bytes([0, 2, i]) for i in range(n)]
+        body = b''.join(cells)
+        return bytes.fromhex('b5ee9c72') + bytes([1, 1, n + 1, 1, 0, len(body), 0]) + body
+
+    for n in (4, 5, 6, 7, 8, 9):
+        kids = [bridge.to_lib(rc.RC(format(i, '08b'))) for i in range(n)]
+        bits = '1011'
+
+        def via_builder_append():
+            b = Builder().store_bits(bits)
+            for k in kids:
+                b.refs.append(k)
+            return b.end_cell()
+
+        def via_builder_assign():
+            b = Builder().store_bits(bits)
+            b.refs = list(kids)
+            return b.end_cell()
+
+        routes = [('Cell(TvmBitarray)', lambda: Cell(TvmBitarray(1023, bits), list(kids))), ('Cell(bitarray)', lambda: Cell(bitarray(bits), list(kids))),
+                  ('Cell(tuple-of-refs)', lambda: Cell(bitarray(bits), tuple(kids))), ('Slice.to_cell', lambda: Slice(TvmBitarray(1023, bits), list(kids)).to_cell()),
+                  ('builder.refs.append', via_builder_append), ('builder.refs=', via_builder_assign)]
+        if n <= 7:
+            routes += [('boc:Cell.one_from_boc', lambda: Cell.one_from_boc(bag(n))), ('boc:Slice.one_from_boc', lambda: Slice.one_from_boc(bag(n)).to_cell())]
+        for name, f in routes:
+            st, v = mon.call(f)
+            R.count('ref_limit_attempts')
+            R.counters['oracle_evaluations'] += 1
+            W = {'route': name, 'refs': n}
+            if n <= 4:
+                R.check(st == 'ok' and len(v.refs) == n, f'four-references-refused-{name.split("(")[0]}', f'{name} with {n} references: {v!r}', W)
+            elif st == 'ok':
+                R.violation(f'cell-with-{min(n, 5)}plus-references-{name.split("(")[0].split(":")[0]}', f'{name} handed out a cell with {len(v.refs)} references (limit 4)', W)
+            else:
+                R.exc(v)
+            R.case(mon.fp('reflimit', name, n))
+
+
 def exotic_depth_limits(R, B, rng, quick):
     """the depth limit holds at every level: children that are pruned branches *claim* a depth per level, Merkle cells take their child's depth one
     level up.  Expected verdict from R1 (RefError('depth') <=> some significant level exceeds 1023)."""
@@ -493,6 +539,7 @@ def run(R):
     structured_overreads(R, B, rng)
     if R.shard == 0:
         depth_limit(R, B)
+        ref_limit_routes(R, B, rng)
         exotic_depth_limits(R, B, rng, quick)
     for i in range((40 if quick else 3000) // R.nshards + 1):
         random_history(R, B, rng, leafs, 40)
@@ -505,6 +552,7 @@ def run(R):
         R.floor('fill_levels', 1024, 'set')
         R.floor('remaining_lengths', 1024, 'set')
         R.floor('depth_attempts', 4)
+        R.floor('ref_limit_attempts', 40)
         R.floor('exotic_depth_expect_exc', 20)
         R.floor('exotic_depth_expect_ok', 20)
 
